@@ -67,8 +67,13 @@ def as_material_array(material, basis, phases, chemicals):
     """
     isa = isinstance
     if isa(material, tmo.Stream):
-        if phases and material.phases != phases:
-            raise ValueError("reaction and stream phases do not match")
+        if phases:
+            if material.phases != phases:
+                raise ValueError("reaction and stream phases do not match")
+        elif material._imol.data.ndim != 1:
+            raise ValueError("a reaction without phases can only react a single-phase "
+                             "stream; react one phase of the stream (e.g. stream['l']) "
+                             "or define the reaction with phases")
         if material.chemicals is chemicals:
             config = None
         else:
